@@ -50,4 +50,5 @@ def run(ctx):
         apalache(w, ["--init=IndInit", "--inv=ActInv", "--length=1"], True, "IndInv /\\ Next => ActInv"),
         apalache(w, ["--init=IndInit", "--inv=ActInvTooStrong", "--length=1"], False, "self-test: ActInvTooStrong is refuted"),
     ]
+    ctx.samples = ctx.extra["apalache"]
     return ctx.finish([], [], RULE, ASSUME)
